@@ -139,9 +139,30 @@ def _raise(out, rnd):
                       ZeroDivisionError(), AssertionError("a"), LookupError("l")])
 
 
+def _num(n, rnd):
+    """A handler's status is a number: the code it means may arrive as an int, an IntEnum member, or something equal to it
+    (20.0, Decimal(20), Fraction(20)) - the header shows the two digits either way."""
+    import decimal
+    import fractions
+    from nauyaca.protocol.status import StatusCode
+    k = rnd.randrange(8)
+    if k == 0:
+        return float(n)
+    if k == 1:
+        return decimal.Decimal("%d.0" % n) if n % 10 else decimal.Decimal("%dE+1" % (n // 10))
+    if k == 2:
+        return fractions.Fraction(n)
+    if k == 3:
+        try:
+            return StatusCode(n)
+        except ValueError:
+            return n
+    return n
+
+
 def handler_value(out, rnd):
     if out == "ok20":
-        return GeminiResponse(status=20, meta="text/gemini", body=BODY)
+        return GeminiResponse(status=_num(20, rnd), meta="text/gemini", body=BODY)
     if out == "ok20bytes":
         return GeminiResponse(status=20, meta="application/octet-stream", body=BODY_BYTES)
     if out == "ok20empty":
@@ -149,9 +170,9 @@ def handler_value(out, rnd):
     if out == "in10":
         return GeminiResponse(status=10, meta="Enter a value")
     if out == "ok30":
-        return GeminiResponse(status=30, meta="gemini://h.ex/other")
+        return GeminiResponse(status=_num(30, rnd), meta="gemini://h.ex/other")
     if out == "err51":
-        return GeminiResponse(status=51, meta="Not found")
+        return GeminiResponse(status=_num(51, rnd), meta="Not found")
     if out == "cert60":
         return GeminiResponse(status=60, meta="Certificate required")
     if out == "body51":
